@@ -154,7 +154,8 @@ def load_known(prop):
 def match_known(known, op, impl, model=""):
     for k in known:
         if re.search(k["match_op"], op) and ("match_impl" not in k or re.search(k["match_impl"], impl)) \
-                and ("match_model" not in k or re.search(k["match_model"], model)):
+                and ("match_model" not in k or re.search(k["match_model"], model)) \
+                and ("not_model" not in k or not re.search(k["not_model"], model)):
             return k
     return None
 
